@@ -22,6 +22,10 @@ Decides:
                     branch leaves behind (its depth) is what this_or_that_picks_first compares.
  T depth only grows  State.path is pushed by ParseCommand::eval and never popped: the depth this_or_that_picks_first compares survives the return of an
                     (adjacent) command (shared with C08).
+ L leftmost        every named consumer / positional claims the LEFTMOST unconsumed match of its whole name set in one position-major search (shared with C01):
+                    name-major lookups make `--a -b` and `-b --a` pick different first items, which is what many() and the leftmost-wins rule order by.
+ R registry        collect_shorts descends through every wrapper (Subsection, Decorated, ..), so the short names of every alternative are tokenized
+                    the same way however the alternative is wrapped (shared with C02).
 Does not decide: ordering of values collected under many/some."""
 import re
 from core import *
@@ -34,7 +38,7 @@ import consumers, scopes, shapes
 LEVEL = 'other'
 EXPLANATION = __doc__
 ASSUMPTIONS = ['Ord::cmp on usize and Option::is_none behave as documented']
-FLOORS = {'F.fork': 4, 'T.adopt-one': 14, 'S.selection': 1, 'W.pick_winner': 3, 'I.itemstate': 10, 'C.conflicts': 2, 'O.order': 2, 'E.env-flag': 2}
+FLOORS = {'F.fork': 4, 'T.adopt-one': 14, 'S.selection': 1, 'W.pick_winner': 3, 'I.itemstate': 10, 'C.conflicts': 2, 'O.order': 2, 'E.env-flag': 2, 'L.leftmost': 22, 'R.registry': 13}
 
 def run(ctx):
     cfgs = ['none', 'all'] if ctx.tier == 'quick' else ['none', 'all', 'ac', 'doc']
@@ -49,6 +53,11 @@ def run(ctx):
         ctx.guard(conflicts, ctx, cfg, fs)
         import c08, c18, c05
         ctx.guard(consumers.forkers, ctx, cfg, fs, 'F.fork')
+        import c12
+        # "values follow command-line order" / "leftmost wins" rest on every named consumer claiming the LEFTMOST unconsumed match
+        ctx.guard(c08.keep_only, ctx, lambda: consumers.consumers(ctx, cfg, fs, 'L.leftmost'), lambda o: True, 'L.leftmost')
+        # ... and on the short-name registry seeing every alternative, however it is wrapped (group_help, docs on a derived enum)
+        ctx.guard(c12.walker_rules, ctx, cfg, fs, 'R.registry', {'collect_shorts': c12.WALKERS['collect_shorts']})
         ctx.guard(c08.keep_only, ctx, lambda: c08.matched(ctx, cfg, fs), lambda o: 'State.path:only-pushed' in o.key, 'T.adopt-one')
         ctx.guard(c08.keep_only, ctx, lambda: c05.scope_restore(ctx, cfg, fs), lambda o: 'adjacent-ok-scope' in o.key, 'R.scope-restore')
         ctx.guard(c08.keep_only, ctx, lambda: c18.flag(ctx, cfg, fs), lambda o: 'take_flag-unconditional' in o.key or 'env-only-when-absent' in o.key, 'E.env-flag')
